@@ -203,4 +203,58 @@ theorem abs_isSome_iff (s : Name) : (fs.abs s).isSome = true ↔ ∃ q, q ∈ fs
     exact (isFile_iff fs q).mpr hq
 
 end spec
+/-- a prefix with a normal directory part is `dirname/basename` with valid directory segments -/
+theorem normalPrefix_split (pfx : Name) (h : normalPrefix pfx = true) :
+    ∃ ds bn, (∀ s ∈ ds, validSeg s = true) ∧ '/' ∉ bn ∧ pfx = joinSlash (ds ++ [bn]) := by
+  have hne := splitSlash_ne_nil pfx
+  obtain ⟨ds, bn, hsp⟩ : ∃ ds bn, splitSlash pfx = ds ++ [bn] := by
+    rcases List.eq_nil_or_concat (splitSlash pfx) with h0 | ⟨l, x, h0⟩
+    · exact absurd h0 hne
+    · exact ⟨l, x, by simpa using h0⟩
+  refine ⟨ds, bn, ?_, ?_, ?_⟩
+  · unfold normalPrefix at h
+    rw [hsp] at h
+    simpa using h
+  · exact splitSlash_seg_no_slash pfx bn (by rw [hsp]; simp)
+  · rw [← hsp, joinSlash_splitSlash]
+
+/-! ## atomic replacement -/
+theorem gen_temp_suffix : Gen.localTempSuffix.toList = ".tmp".toList := by decide
+
+theorem last_suffix_joinSlash (xs : Path) (seg : Seg) : seg <:+ joinSlash (xs ++ [seg]) := by
+  by_cases h : xs = []
+  · subst h; exact List.suffix_refl _
+  · rw [joinSlash_append xs [seg] h (by simp)]
+    exact List.suffix_append_of_suffix (List.suffix_cons _ _)
+
+/-- a name that does not end in `.tmp` never addresses the temporary file of an upload -/
+theorem ne_tempPath (m : Name) (hm : tmpName m = false) (p : Path) (rnd : List Char) : splitSlash m ≠ tempPath p rnd := by
+  intro e
+  have hj : m = joinSlash (tempPath p rnd) := by rw [← e, joinSlash_splitSlash]
+  have hsuf : ".tmp".toList <:+ m := by
+    rw [hj]
+    unfold tempPath
+    refine List.IsSuffix.trans ?_ (last_suffix_joinSlash _ _)
+    rw [gen_temp_suffix]
+    exact ⟨(p.getLast?.getD []).take 240 ++ '_' :: rnd, by simp⟩
+  have : tmpName m = true := List.isSuffixOf_iff_suffix.mpr hsuf
+  rw [hm] at this; cases this
+
+/-- the state after all four steps of an upload -/
+theorem uploadState_final (fs : FS) (p : Path) (rnd : List Char) (d : Bytes) (k : Nat) :
+    uploadState fs p rnd d (k + 4) =
+      ⟨ainsert (aerase (ainsert (ainsert fs.files (tempPath p rnd) []) (tempPath p rnd) d) (tempPath p rnd)) p d,
+       (fs.mkdirs (ancestors p)).dirs⟩ := by
+  unfold uploadState
+  rw [List.take_of_length_le (by simp [uploadSteps])]
+  simp only [uploadSteps, List.foldl, FS.apply, FS.write, FS.mkdirs, FS.get, FS.erase, alookup_ainsert, if_true]
+
+theorem uploadState_2 (fs : FS) (p : Path) (rnd : List Char) (d : Bytes) :
+    (uploadState fs p rnd d 2).files = ainsert fs.files (tempPath p rnd) [] := by
+  simp [uploadState, uploadSteps, List.take, List.foldl, FS.apply, FS.write, FS.mkdirs]
+
+theorem uploadState_3 (fs : FS) (p : Path) (rnd : List Char) (d : Bytes) :
+    (uploadState fs p rnd d 3).files = ainsert (ainsert fs.files (tempPath p rnd) []) (tempPath p rnd) d := by
+  simp [uploadState, uploadSteps, List.take, List.foldl, FS.apply, FS.write, FS.mkdirs]
+
 end Replicat.LocalFS
